@@ -92,6 +92,11 @@ function with the broken one. UNDECIDED entries are exit 2 with the reason in th
   -- a `format!` in *value* position with a spec N6 does not model is not replaced by an arbitrary string (that would
   over-approximate a value, and a proof failing on the over-approximation says nothing): the function is UNDECIDED for
   Verus, and the Kani harness times out on the formatting code.
+* *resource limit on a proof that cannot succeed*: a changed socket remover (two `remove_insert` calls instead of one, ..) makes
+  the solver search until the budget is used up, also in the retry run with six times the budget; a function that runs out
+  of resources has all its verdicts set to UNDECIDED (11.4 item 7). Which of `C07_2`, `b2_C06_2`, `b3_C06_1` end that way
+  differs from round to round (each was reported in most rounds; in this one `C07_2` is UNDECIDED): the verdict on the
+  unchanged tree does not depend on it (the heaviest function there uses a quarter of the budget).
 * *error kinds of the decoder*: the contract of `decode` fixes Ok/Err and the value, not *which* `alloy_rlp::Error` is
   returned; `b3_C13_2` changes only the error reported for a malformed item followed by more than 300 bytes. A clause that
   names the cause of each error needs the error values of `K::enr_to_public` and of every alloy-rlp call in the
